@@ -61,6 +61,7 @@ type Options struct {
 	ExportType      T
 	NoFloatFormat   bool
 	CallDefined     bool // call every function right after its definition
+	IdentKeys     bool // map keys are plain identifiers only (printed-form round trip)
 }
 
 // Program is a generated program.
@@ -114,6 +115,13 @@ func (g *G) f(name string) { g.feat[name]++ }
 func (g *G) fresh(prefix string) string {
 	g.nameN++
 	return fmt.Sprintf("%s%d", prefix, g.nameN)
+}
+
+func (g *G) spaceKey() string {
+	if g.o.IdentKeys {
+		return "e"
+	}
+	return `"sp ace"`
 }
 
 func (g *G) lastFresh() string { return fmt.Sprintf("q%d", g.nameN) }
@@ -230,6 +238,9 @@ func (g *G) lit(t T) string {
 		el := make([]string, n)
 		for i := range el {
 			k := pick(g.r, []string{"a", "b", "c", "k1", "n", `"x y"`, `"1"`})
+			if g.o.IdentKeys {
+				k = pick(g.r, []string{"a", "b", "c", "k1", "n"})
+			}
 			el[i] = k + ": " + g.lit(pick(g.r, []T{TInt, TInt, TStr, TBool, TArrI}))
 		}
 		return "{" + strings.Join(el, ", ") + "}"
@@ -517,7 +528,7 @@ func (g *G) Expr(t T, depth int) string {
 			n := g.r.Intn(4)
 			el := make([]string, n)
 			for i := range el {
-				el[i] = pick(g.r, []string{"a", "b", "c", "d", "k1", `"sp ace"`}) + ": " + g.Expr(pick(g.r, []T{TInt, TStr, TBool, TArrI, TAny}), d)
+				el[i] = pick(g.r, []string{"a", "b", "c", "d", "k1", g.spaceKey()}) + ": " + g.Expr(pick(g.r, []T{TInt, TStr, TBool, TArrI, TAny}), d)
 			}
 			return "{" + strings.Join(el, ", ") + "}"
 		case 1:
